@@ -20,6 +20,8 @@ type StoreCall struct {
 	Err   bool
 	Bytes []byte // Save: the message's bytes at the time of the call
 	Order int
+	// the Sender / Target of the StorageID the session passed
+	IDSender, IDTarget string
 }
 
 // Store wraps the bundled memory.Storage: it records calls, can fail the
@@ -35,6 +37,10 @@ type Store struct {
 	Yield     func(op string, n int) int           // number of runtime.Gosched() calls inside the call (schedule perturbation that is safe under locks)
 	Log       *EventLog
 	nCalls    int
+	// Partition: keep the messages per (Sender, Target) of the StorageID, as a store
+	// serving several sessions has to; the bundled memory.Storage ignores the ID.
+	Partition bool
+	parts     map[string]map[int]simplefixgo.SendingMessage
 }
 
 func NewStore(inner *memory.Storage) *Store {
@@ -72,7 +78,11 @@ func (s *Store) rec(c StoreCall) {
 	s.calls = append(s.calls, c)
 	s.mu.Unlock()
 	if s.Log != nil {
-		s.Log.Add(Event{Kind: "store:" + c.Op, Seq: c.Seq, Err: c.Err, Bytes: c.Bytes})
+		name := ""
+		if c.Op == "save" {
+			name = c.IDSender + "|" + c.IDTarget // the identity (StorageID) the session saved it under
+		}
+		s.Log.Add(Event{Kind: "store:" + c.Op, Name: name, Seq: c.Seq, Err: c.Err, Bytes: c.Bytes})
 	}
 }
 
@@ -113,16 +123,55 @@ func (s *Store) Save(id fix.StorageID, msg simplefixgo.SendingMessage, seq int) 
 		b = append([]byte(nil), bb...)
 	}
 	if fail {
-		s.rec(StoreCall{Op: "save", Seq: seq, Side: string(id.Side), Err: true, Bytes: b})
+		s.rec(StoreCall{Op: "save", Seq: seq, Side: string(id.Side), Err: true, Bytes: b, IDSender: id.Sender, IDTarget: id.Target})
 		return ErrInjected
 	}
-	err := s.Inner.Save(id, msg, seq)
-	s.rec(StoreCall{Op: "save", Seq: seq, Side: string(id.Side), Err: err != nil, Bytes: b})
+	var err error
+	if s.Partition {
+		s.mu.Lock()
+		if s.parts == nil {
+			s.parts = map[string]map[int]simplefixgo.SendingMessage{}
+		}
+		key := id.Sender + "\x00" + id.Target
+		if s.parts[key] == nil {
+			s.parts[key] = map[int]simplefixgo.SendingMessage{}
+		}
+		s.parts[key][seq] = msg
+		s.mu.Unlock()
+	} else {
+		err = s.Inner.Save(id, msg, seq)
+	}
+	s.rec(StoreCall{Op: "save", Seq: seq, Side: string(id.Side), Err: err != nil, Bytes: b, IDSender: id.Sender, IDTarget: id.Target})
 	return err
 }
 
 func (s *Store) Messages(id fix.StorageID, from, to int) ([]simplefixgo.SendingMessage, error) {
-	ms, err := s.Inner.Messages(id, from, to)
+	var ms []simplefixgo.SendingMessage
+	var err error
+	if s.Partition {
+		// the same rules as memory.Storage.Messages, on this identity's messages only
+		last, _ := s.Inner.GetCurrSeqNum(fix.StorageID{Sender: id.Sender, Target: id.Target, Side: fix.Outgoing})
+		s.mu.Lock()
+		part := s.parts[id.Sender+"\x00"+id.Target]
+		switch {
+		case from > to:
+			err = simplefixgo.ErrInvalidBoundaries
+		case to > last:
+			err = simplefixgo.ErrNotEnoughMessages
+		default:
+			for i := from; i <= to; i++ {
+				m, ok := part[i]
+				if !ok {
+					ms, err = nil, simplefixgo.ErrNotEnoughMessages
+					break
+				}
+				ms = append(ms, m)
+			}
+		}
+		s.mu.Unlock()
+	} else {
+		ms, err = s.Inner.Messages(id, from, to)
+	}
 	s.rec(StoreCall{Op: fmt.Sprintf("messages(%d,%d)", from, to), Side: string(id.Side), Err: err != nil})
 	return ms, err
 }
